@@ -246,6 +246,24 @@ def gen_layout(rng):
     return {"hosts": hosts, "clients": clients}
 
 
+def directed_cases():
+    """A few hand-written cases every run starts with (shard 0): the shapes named in the property statements."""
+
+    def t(name, clients=1, op="search", tags=None):
+        return {"name": name, "op": op, "clients": clients, "tags": tags}
+
+    ops = {"search": "search", "bulk": "bulk"}
+    hosts = [{"host": "h0", "cores": 2}]
+    xpy = [{"t": t("x")}, {"p": {"cap": None, "cb": None, "tasks": [t("a", 2), t("b", 1, "bulk", ["w"])]}}, {"t": t("y", 3)}]
+    out = []
+    for mode, spec in (("exclude", "a,b"), ("exclude", "a"), ("include", "a,b"), ("include", "x,y"), ("exclude", "x,a,b,y"), ("include", "nothing"),
+                       ("exclude", "type:bulk,a"), ("exclude", "tag:w, a"), (None, None)):
+        out.append({"ops": dict(ops), "challenges": [{"name": "c0", "schedule": copy.deepcopy(xpy)}], "filter": {"mode": mode, "spec": spec}, "hosts": hosts, "via_loader": False})
+    over = [{"p": {"cap": 2, "cb": "a", "tasks": [t("a", 3), t("b", 2)]}}, {"p": {"cap": 7, "cb": "any", "tasks": [t("c", 1), t("d", 1)]}}]
+    out.append({"ops": dict(ops), "challenges": [{"name": "c0", "schedule": over}], "filter": {"mode": None, "spec": None}, "hosts": hosts, "via_loader": True})
+    return out
+
+
 # ----------------------------------------------------------------------------------------------------------------
 # builders (real esrally.track objects)
 # ----------------------------------------------------------------------------------------------------------------
@@ -404,6 +422,8 @@ def shrink_case(case, still_fails, max_tries=400):
             items = [i.strip() for i in c["filter"]["spec"].split(",")]
             if len(items) > 1:
                 for i in range(len(items)):
+                    if items[i] == c["filter"].get("malformed") and items.count(items[i]) == 1:
+                        continue  # the malformed item is the point of the case
                     v = copy.deepcopy(c)
                     v["filter"]["spec"] = ",".join(items[:i] + items[i + 1:])
                     yield v
@@ -429,13 +449,17 @@ def shrink_case(case, still_fails, max_tries=400):
                                 (vt["t"] if "t" in vt else vt["p"]["tasks"][ti])["clients"] = nc
                                 yield v
                     extra = [k for k in ("it", "wit", "tp", "wtp", "sched", "tput", "meta") if k in t]
-                    if extra or t.get("tags") is not None:
+                    if extra:
                         v = copy.deepcopy(c)
                         vt = v["challenges"][ci]["schedule"][ei]
                         vt = vt["t"] if "t" in vt else vt["p"]["tasks"][ti]
                         for k in extra:
                             del vt[k]
-                        vt["tags"] = None
+                        yield v
+                    if t.get("tags") is not None:
+                        v = copy.deepcopy(c)
+                        vt = v["challenges"][ci]["schedule"][ei]
+                        (vt["t"] if "t" in vt else vt["p"]["tasks"][ti])["tags"] = None
                         yield v
 
     changed = True
